@@ -184,7 +184,7 @@ UNIT = dict(
         dict(file="src/solve/external.rs", path="fn thread_threshold",
              attrs="#[verifier::exec_allows_no_decreases_clause]",
              obligation="C07.V.external_thread_threshold.frontier_is_a_cut",
-             body_subst=[(r"work\.extend\(nexts\);", "__extend_refs(work, nexts);", "R5 Vec::extend over a slice bound to its std contract")],
+             body_subst=[(r"work\.extend\((\w+)\);", r"__extend_refs(work, \1);", "R5 Vec::extend over a slice bound to its std contract")],
              rules=[],
              contract="""requires
     old(queue)@.len() == 0, old(work)@.len() == 0,
